@@ -1,5 +1,8 @@
 import HC.Stream.Ws
 import HC.Stream.WsSpec
+import HC.Stream.WsWire
+import HC.Extracted.WsSend
+import HC.Extracted.Atomic
 /-!
 # C10 — WebSocket message fidelity and message-size limit
 
@@ -15,7 +18,10 @@ application messages reach the client with identical type and payload, in order.
 
 All of it is proved at full strength: `receive_fidelity`, `segmentation_independence`, `ping_pong`, `limit_text`,
 `limit_bytes`, `limit_total` (after the overflow the handler stays total and silent, for ALL later batches),
-`nothing_after_overflow`, `send_fidelity`, `send_sequence`.  (Before the repair of F05 — `extend` now refuses
+`nothing_after_overflow`, `send_fidelity`, `send_sequence`; and, for the several tasks that write to one WebSocket stream
+(application, reader task's replies, ping task) under EVERY schedule of their suspension points:
+`send_frames_never_interleaved`, `send_stream_parses`, `send_fidelity_concurrent` (model `HC/Stream/WsWire.lean`, granularity
+read off the source by `frame_hand_over_assumed`).  (Before the repair of F05 — `extend` now refuses
 everything once the buffer is over the limit — a later fragment of the other kind raised `TypeError`.)
 -/
 namespace HC.Props.C10
@@ -500,6 +506,67 @@ theorem send_dropped_when_closing (token : Bytes → Bytes) (ext : Option Bytes)
     appSend token ext s (some o.msg) = (s, [], none) := by
   cases o <;> simp [appSend, AppOut.msg, hcl, hst, sendWs, hc, connSend, hne]
 
+/-! ### several writer tasks, one stream: frames are never interleaved (model `HC/Stream/WsWire.lean`) -/
+
+/-- the source facts the granularity of `WsWire` rests on (extracted from the current tree, tools/extract_wssend.py):
+    one wsproto event = one serialised frame = one `Data` event; the HTTP/2 carrier passes the whole of `event.data` to ONE
+    `StreamBuffer.push`, which appends the whole of it to the buffer before its first suspension point, nothing loops;
+    the HTTP/1.1 carrier passes the whole of it on as ONE `RawData`, which both workers write in ONE call under the send lock;
+    `Event.set()` / `Event.clear()` (called on the way) do not suspend on either worker -/
+theorem frame_hand_over_assumed :
+    WsSend.wsEventData = ["self.connection.send(event)"] ∧
+    WsSend.h2DataPushArgs = ["event.data"] ∧ WsSend.h2DataLoops = false ∧
+    WsSend.pushExtendArgs = ["data"] ∧ WsSend.pushAwaitsBeforeExtend = [] ∧ WsSend.pushLoops = false ∧
+    WsSend.h11DataSendArgs = ["event.data"] ∧ WsSend.h11DataLoops = false ∧
+    WsSend.asyncioWriteArgs = ["event.data"] ∧ WsSend.asyncioWriteLocked = true ∧ WsSend.asyncioWriteLoops = false ∧
+    WsSend.trioWriteArgs = ["event.data"] ∧ WsSend.trioWriteLocked = true ∧ WsSend.trioWriteLoops = false ∧
+    Atomic.asyncioEventSetSuspends = false ∧ Atomic.asyncioEventClearSuspends = false ∧
+    Atomic.trioEventSetSuspends = false ∧ Atomic.trioEventClearSuspends = false := by decide
+
+/-- **for every number of writer tasks, every list of frames per task and every schedule** of hand-overs and of takes by the
+    send task: what has been sent plus what is buffered is the concatenation of whole frames in hand-over order, and each
+    task's frames are handed over in that task's order, none lost, none twice -/
+theorem send_frames_never_interleaved {σ φ : Type} (F : WsWire.Framing σ φ) (init : Nat → List φ) (ops : List WsWire.Op) :
+    let s := WsWire.run F (WsWire.start init) ops
+    s.wire ++ s.buf = WsWire.wireOf F (s.log.map (·.2)) ∧ ∀ w, WsWire.sentBy w s.log ++ s.todo w = init w :=
+  ⟨(WsWire.inv_run F init ops).stream, (WsWire.inv_run F init ops).order⟩
+
+/-- the client's parser is never left with a damaged frame: a drained stream parses into the frames handed over -/
+theorem send_stream_parses {σ φ : Type} (F : WsWire.Framing σ φ) (init : Nat → List φ) (ops : List WsWire.Op)
+    (hdrained : (WsWire.run F (WsWire.start init) ops).buf = []) :
+    WsWire.Decodes F (WsWire.run F (WsWire.start init) ops).wire ((WsWire.run F (WsWire.start init) ops).log.map (·.2)) :=
+  WsWire.client_can_parse F init ops hdrained
+
+/-- **messages the application sends reach the client with identical type and payload, in order - whatever the other
+    writers of the stream do meanwhile** (and every pong the reader task sends reaches it, in order): with every task sending
+    frames of its own class (`cls`, the opcode: 0 = messages, 1 = pong / close replies, 2 = pings), after any schedule that
+    hands everything over and drains the buffer, whatever the client parses contains for each class exactly that task's
+    frames, in its order -/
+theorem send_fidelity_concurrent {σ φ : Type} (F : WsWire.Framing σ φ) (cls : φ → Nat) (init : Nat → List φ) (ops : List WsWire.Op)
+    (hcls : ∀ w, ∀ f ∈ init w, cls f = w)
+    (hall : ∀ w, (WsWire.run F (WsWire.start init) ops).todo w = []) (hdrained : (WsWire.run F (WsWire.start init) ops).buf = [])
+    (got : List φ) (hgot : WsWire.Decodes F (WsWire.run F (WsWire.start init) ops).wire got) :
+    ∀ w, got.filter (fun f => cls f == w) = init w :=
+  WsWire.client_sees_each_writer_in_order F cls init ops hcls hall hdrained got hgot
+
+/-- why the granularity matters (negation witness): were a frame handed over in pieces with a suspension point in between
+    (`WsWire.Sliced`), a schedule exists after which the stream is no concatenation of the whole frames in either order,
+    and the client parses a "message" that contains the other task's frame -/
+theorem sliced_hand_over_interleaves :
+    let init : Nat → List (List Nat) := fun w => if w = 0 then [[7, 7, 7, 7]] else if w = 1 then [[9]] else []
+    let s := WsWire.Sliced.run WsWire.lp { todo := init, part := fun _ => [], buf := [], wire := [] }
+               [.handOverPiece 0 2, .handOverPiece 1 5, .handOverPiece 0 5, .take 100]
+    s.wire = [4, 7, 1, 9, 7, 7, 7] ∧ s.buf = [] ∧ (∀ w, s.todo w = [] ∧ s.part w = []) ∧
+    s.wire ≠ WsWire.wireOf WsWire.lp [[7, 7, 7, 7], [9]] ∧ s.wire ≠ WsWire.wireOf WsWire.lp [[9], [7, 7, 7, 7]] ∧
+    WsWire.lp.dec s.wire = some ([7, 1, 9, 7], [7, 7]) := by
+  refine ⟨by decide, by decide, ?_, by decide, by decide, by decide⟩
+  intro w
+  by_cases h0 : w = 0
+  · subst h0; decide
+  · by_cases h1 : w = 1
+    · subst h1; decide
+    · simp [WsWire.Sliced.run, WsWire.Sliced.step, WsWire.lp, h0, h1]
+
 /-! ### non-vacuity -/
 
 private def s5 : S := { st := .connected, hs := { version := "1.1", accepted := true }, conn := some .open, buffer := { maxLength := 5 } }
@@ -514,5 +581,12 @@ example :
 
 example : (handleEvents s5 ([.message (.bytes [1, 2, 3]) false, .message (.bytes [4, 5, 6]) true, .message (.bytes [7]) true])).2 =
     ([], [.data (.close 1009)], none) := by decide
+
+/-- two writers (the application: two messages; the reader task: one pong), the pong handed over between the two messages
+    whilst the send task has taken half of the first: whole frames, in order -/
+example :
+    let init : Nat → List (List Nat) := fun w => if w = 0 then [[7, 7, 7, 7], [8]] else if w = 1 then [[9]] else []
+    let s := WsWire.run WsWire.lp (WsWire.start init) [.handOver 0, .take 2, .handOver 1, .take 3, .handOver 0, .take 100]
+    s.wire = [4, 7, 7, 7, 7, 1, 9, 1, 8] ∧ s.log = [(0, [7, 7, 7, 7]), (1, [9]), (0, [8])] := by decide
 
 end HC.Props.C10
